@@ -67,15 +67,6 @@ Section FromCompute.
 Variables (period from_day to_day : Z) (allow : bool) (exs hos : list str) (fs : list fraction) (x : actx).
 Hypothesis Hc : compute period from_day to_day allow exs hos (ac_txs x) fs = Ok (ac_c x).
 
-Lemma compute_window_le : window_le x.
-Proof.
-  destruct (compute_fields _ _ _ _ _ _ _ _ _ Hc) as (A & B & C & _). unfold window_le. rewrite A, B, C.
-  repeat split; apply iter_window_length.
-Qed.
-
-Lemma compute_gls_le : (length (cd_gls (ac_c x)) <= length (cd_all_gls (ac_c x)))%nat.
-Proof. destruct (compute_fields _ _ _ _ _ _ _ _ _ Hc) as (_ & _ & _ & D). rewrite D. apply iter_window_length. Qed.
-
 (** row numbers are distinct within an asset (the parser numbers the rows of one sheet; artificial fee
     transactions get fresh negative ids): then so are those of the transactions shown *)
 Lemma compute_vis_nodup : NoDup (all_rows (ac_txs x)) -> NoDup (vis_rows x).
@@ -108,15 +99,6 @@ Proof.
     apply in_app_or in Hin. apply in_or_app. destruct Hin as [Hin|Hin]; [left|right]; eapply map_window_in; exact Hin.
 Qed.
 End FromCompute.
-
-(** capacity of the two sheets of an asset, for ComputedData produced by [compute] *)
-Lemma inout_capacity env inp x period from_day to_day allow exs hos fs :
-  compute period from_day to_day allow exs hos (ac_txs x) fs = Ok (ac_c x) -> sheet_ok (inout_sheet env inp x) = true.
-Proof. intro H. apply inout_sheet_ok. eapply compute_window_le; eassumption. Qed.
-Lemma tax_capacity env inp x lm period from_day to_day allow exs hos fs :
-  compute period from_day to_day allow exs hos (ac_txs x) fs = Ok (ac_c x) ->
-  Z.of_nat (length (holder_totals inp (cd_balances (ac_c x)))) <= 21 -> sheet_ok (tax_sheet env inp x lm) = true.
-Proof. intros H H0. apply tax_sheet_ok; [eapply compute_gls_le; eassumption|exact H0]. Qed.
 
 Lemma hidden_lot_no_link fl env inp x lm0 j d f l period from_day to_day allow exs hos fs : ff_clears fl = true ->
   compute period from_day to_day allow exs hos (ac_txs x) fs = Ok (ac_c x) -> NoDup (all_rows (ac_txs x)) ->
